@@ -66,6 +66,9 @@ def items(tier, seed):
         hist.append({"k": "from_category", "lim": list(lim), "qt": "length", "du": "m", "u": "m", "cls": "Scalar", "n": 1, "dflt": "given", "fp": False})
         for cls in ("Array.list", "Array.numpy", "FixedArray.list"):
             hist.append({"k": "copy_category", "lim": list(lim), "qt": "length", "du": "m", "u": "cm", "cls": cls, "n": 2, "dflt": "given", "fp": False})
+    for cls in ("Array", "FixedArray"):
+        for dt in ("float32", "float16", "float64", "int32"):
+            hist.append({"k": "aux_narrow_dtype", "lim": ["both", False, False], "qt": "length", "du": "m", "u": "m", "cls": cls, "dt": dt, "n": 2, "dflt": "given", "fp": False})
     if tier == "quick":
         fpi = [c for c in out if c["fp"]]
         rest = [c for c in out if not c["fp"]]
@@ -151,6 +154,24 @@ def run_history(cfg, V):
     xs = [V["x%d" % i] for i in range(cfg["n"])]
     k = cfg["k"]
     with pushed(db):
+        if k == "aux_narrow_dtype":
+            # auxiliary, concrete: numpy storage of a narrow dtype holds amounts that are NOT the decimal they print as; the verdict follows the amount it really holds
+            import numpy
+            from barril.units import Array, FixedArray
+
+            db.AddCategory("c12n", "length", default_unit="m", min_value=0.1, max_value=0.3, default_value=0.2)
+            dt = getattr(numpy, cfg["dt"])
+            bad = []
+            cands = [0.3, 0.1, 0.2, 0.30000001, 0.09999999, 0.25] if cfg["dt"] != "int32" else [0, 1, 2]
+            for unit, scale in (("m", 1.0), ("mm", 1000.0)):
+                for v in cands:
+                    held = dt(v * scale)
+                    arr = numpy.array([held, dt(0.2 * scale) if cfg["dt"] != "int32" else held], dtype=dt)
+                    o = Array(arr, unit, "c12n") if cfg["cls"] == "Array" else FixedArray(2, arr, unit, "c12n")
+                    want = all(Scalar(float(e), unit, "c12n").IsValid() for e in arr)
+                    if o.IsValid() != want or Array([float(e) for e in arr], unit, "c12n").IsValid() != want:
+                        bad.append((unit, v, float(held), o.IsValid(), want))
+            return {"aux_bad": bad}
         if k == "clear_refill":
             # the SAME database object is emptied and configured again: objects and quantities of the first configuration exist, the category had no limits then
             from barril.units import UnitDatabase
@@ -397,6 +418,8 @@ def props_history(cfg, T, obs, C):
         return z3.And(*cs) if cs else z3.BoolVal(True)
 
     k = cfg["k"]
+    if k == "aux_narrow_dtype":
+        return [("auxiliary, concrete (not solver-decided): an Array over float32 / float16 / int numpy storage is accepted exactly when Scalars holding the same amounts are", obs["aux_bad"] == [])]
     if k == "legacy_valid_units":
         return [("a category registered with legacy-spelled valid units gets a default unit that is registered, is one of its own valid units and is accepted for the category",
                  bool(obs["registered"]) and obs["default_unit"] in obs["valid_units"] and obs["unit_ok"] is True),
